@@ -25,5 +25,8 @@ def run(rep, tier):
     tol.r_tol_from(rep, f)
     rep.rule("R-TOL-ROUTE", "at every internal call that passes both tolerances on (hinit and helpers) the callee's atol receives the caller's atol and its rtol the caller's rtol")
     tol.r_tol_route_helpers(rep, f)
+    rep.rule("R-EVT-SORT", "events detected in one step are processed in the order of integration in both directions (time reflection must mirror which event ends a run)")
+    import handler as H
+    H.r_evt_sort(rep, H.HandlerCtx(f))
     rep.explanation = ("Decides the structural part of the symmetries: parity of every time-like quantity under reflection, homogeneity of every step-size decision input under scaling and duplication, "
                        "and alias-freedom of scalar tolerances. NOT decided: bit-identity itself (needs rounding/associativity reasoning per operation) and mirroring accuracy of event times.")
